@@ -403,6 +403,43 @@ func checkSfCase(c sfCase, rec *Rec) error {
 			return err
 		}
 	}
+	// arguments that are slices of ONE array: a set and a prefix / suffix / the very same slice of it
+	if len(c.A) >= 1 {
+		s0 := sortints.SortedInts(append([]int{}, c.A...))
+		k := c.N % (len(s0) + 1)
+		for _, pair := range [][2]sortints.SortedInts{{s0, s0[:k]}, {s0[:k], s0}, {s0, s0[k:]}, {s0[k:], s0}, {s0, s0}} {
+			x, y := pair[0], pair[1]
+			mx, my := setOf(x), setOf(y)
+			wantI := 0
+			for v := range mx {
+				if my[v] {
+					wantI++
+				}
+			}
+			if got := sortints.IntersectionSize(x, y); got != wantI {
+				return fmt.Errorf("IntersectionSize(%v, %v) = %d want %d (the arguments are slices of one array)", []int(x), []int(y), got, wantI)
+			}
+			un := map[int]bool{}
+			for v := range mx {
+				un[v] = true
+			}
+			for v := range my {
+				un[v] = true
+			}
+			if got := sortints.Union(x, y); !eqInts(got, sortedKeys(un)) {
+				return fmt.Errorf("Union(%v, %v) = %v (the arguments are slices of one array)", []int(x), []int(y), []int(got))
+			}
+			if got := sortints.Intersection(x, y); len(got) != wantI {
+				return fmt.Errorf("Intersection(%v, %v) = %v (the arguments are slices of one array)", []int(x), []int(y), []int(got))
+			}
+			if got := sortints.ContainsSorted(x, y); got != (wantI == len(my)) {
+				return fmt.Errorf("ContainsSorted(%v, %v) = %v (the arguments are slices of one array)", []int(x), []int(y), got)
+			}
+			if !eqInts(s0, c.A) {
+				return fmt.Errorf("a function modified its arguments %v (slices of one array)", c.A)
+			}
+		}
+	}
 	if got := sortints.IntersectionSize(c.A, c.B); got != inter {
 		return fmt.Errorf("IntersectionSize(%v,%v) = %d want %d", a0, b0, got, inter)
 	}
